@@ -9,11 +9,20 @@ CONFIG = {
     "technique": "Lean 4 proof over a model of Sophia's RDF/XML glue (convert_triple, rio_format_triples, RdfXmlSerializer) "
                  "and a HAND MODEL of the third-party formatter (rio_xml 0.8.6 RdfXmlFormatter/split_iri, quick-xml 0.36 "
                  "escape + Writer indentation) with a reference reader; byte-exact and parsed-graph differential against "
-                 "the real serializer and sophia_xml::parser; round-trip / well-formedness / indentation oracle on the Rust side",
+                 "the real serializer and sophia_xml::parser; round-trip / well-formedness / indentation / error-reporting "
+                 "(failing writer, failing source) oracle on the Rust side",
     "level_text": "Proof covers Sophia's glue plus a formatter MODEL, not the third-party core. For the Lean transcription "
                   "of convert_triple / rio_format_triples / RdfXmlSerializer (indentation switch, finish) and a hand model of "
                   "rio_xml's RdfXmlFormatter + split_iri and quick-xml's escape and indenting Writer it is proved, for all "
-                  "inputs: exactly the strict RDF triples are written (others skipped, quoted triples = error); "
+                  "inputs: exactly the strict RDF triples are written (others skipped, quoted triples = error); the serialiser "
+                  "fails exactly when the graph contains a convertible quoted triple, hence never on a strict graph "
+                  "(serialize_fails_iff, strict_graph_serializes); a writer that stops accepting bytes anywhere before the "
+                  "end of the document, or a failing triple source, always yields Err and Ok means the whole document was "
+                  "written (sink_error_never_swallowed, source_error_never_swallowed, ok_is_whole_document); every successful "
+                  "event stream is properly nested with one root element, its element names are rdf:RDF, rdf:Description or "
+                  "NCNames when the predicates have an NCName suffix, and no tag repeats an attribute (wellformed_partial: the "
+                  "structural part of 'well-formed'; XML Char-ness of the rendered characters and the grammar itself are not "
+                  "proved); "
                   "unescape . escape = id on every string; what a conforming XML 1.0 reader delivers for escaped text and "
                   "attribute values (CR in text, TAB/LF/CR in attributes are the only characters lost); split_iri yields an "
                   "NCName local part with ns++local = IRI, or the pseudo name 'prop:' exactly when no suffix is an NCName; the "
@@ -36,6 +45,10 @@ CONFIG = {
                   "renumbered or unparsable; predicates without NCName suffix are written as the ill-formed QName 'prop:'. "
                   "Documented limit (not flagged): a lone CR in a literal is written raw, sophia's own reader keeps it, a "
                   "conforming XML processor would read LF (theorem xml_text_cr_lost).",
+    # a quick run takes ~10 s, a thorough one ~2 min of CPU; generous so that a loaded machine cannot turn
+    # "slow" into "hang"
+    "exec_timeout": 3600,
+    "gen_timeout": 1800,
     "tables": [],
     "lean_targets": ["SophiaProofs.Props.C18", "SophiaProofs.Audit.C18"],
     "theorems": [],   # filled below
@@ -50,8 +63,18 @@ CONFIG = {
             "name characters, markup in the namespace, every rdf: syntax name); non-representable triples (literal "
             "subject, blank/literal/quoted predicate, variables, quoted triples with and without bad constituents); runs "
             "of equal subjects; indentation 0..8 and occasionally up to 200. Every request is serialised with the "
-            "requested indentation (byte-exact differential) and with all of 0..8 (parse must be identical). "
-            "Non-trivial = the serialiser succeeded and at least one triple was written.",
+            "requested indentation (byte-exact differential), with all of 0..8 and through the configuration-less entry "
+            "points (new_stringifier + serialize_graph, RdfXmlSerializer::new, RdfXmlConfig::default()/new() on a &mut Vec) "
+            "- the parse must be identical. Added after the audit: datatypes that resemble xsd:string / rdf:langString "
+            "without being equal (shared NEAR_MISS_DATATYPES + case, scheme, suffix, percent variants), IRIs that resemble "
+            "rdf:/xsd: vocabulary (NEAR_MISS_VOCAB) and local names that resemble RDF/XML syntax names (rdf:lix, rdf:_0, "
+            "rdf:description ...), odd but valid absolute IRIs (IP literals, userinfo, port, empty path, private-use query, "
+            "sub-delims) in subject / predicate / object / datatype position, quoted triples in both positions and of "
+            "depth 2..3 with and without a non-convertible leaf, long literals (up to ~10 kB) and runs of one atom (CR CR, "
+            "leading CR), graphs of 20..60 triples; `sink` requests run the serialiser into a writer that accepts N bytes "
+            "(every N for a small document, random N / end-relative N otherwise: inside the declaration, the body, the end "
+            "tags written by finish(), exactly enough) and `src` requests with a triple source that fails after k triples. "
+            "Non-trivial = the serialiser succeeded and at least one triple was written (sink/src requests: always).",
     "trusted_base": ["hand models of rio_xml 0.8.6 formatter/parser and quick-xml 0.36.2 writer/escape: lean/SophiaModel/Model/XmlGlue.lean "
                      "(watched by the byte-exact / parsed-graph differential only)",
                      "own well-formedness checker, isomorphism test and scope classifier in harness/props/c18/src/main.rs",
@@ -87,6 +110,15 @@ CONFIG["theorems"] = [
     "roundtrip_rdf_li_renumbered",
     "prop_name_not_qname",
     "prop_name_ncname",
+    "serialize_fails_iff",
+    "strict_graph_serializes",
+    "outcome_plain",
+    "sink_error_never_swallowed",
+    "source_error_never_swallowed",
+    "ok_is_whole_document",
+    "default_is_unindented",
+    "wellformed_partial",
+    "events_well_nested",
 ]
 
 
@@ -167,9 +199,72 @@ def _model_predicts(failure):
     return "g" in I and I.get("g") == M.get("g") and I.get("parse") == M.get("parse")
 
 
+def _norm(t):
+    """language tags compared case-insensitively (the reader lower-cases them)"""
+    return tuple((x[0], x[1], x[2].lower()) if x[0] == "g" else tuple(x) for x in t)
+
+
+def _parsed_graph(impl_reply):
+    """the graph the REAL parser delivered, from the implementation's own `g=` field"""
+    g = kv(impl_reply).get("g")
+    if g is None or g in ("err", "panic", "na"):
+        return None
+    if g == "_":
+        return set()
+    out = set()
+    for tr in g.split(";"):
+        ts = _terms(tr.split(","))
+        if len(ts) != 1 or len(ts[0]) != 3:
+            return None
+        out.add(_norm(ts[0]))
+    return out
+
+
+_RDF_N = re.compile(re.escape(RDF) + r"_[1-9][0-9]*\Z")
+
+
+def _explained(failure, cause):
+    """model-independent reading of a round-trip failure: every difference between the input graph and what
+    the real parser delivered is exactly one of the documented losses (whitespace-only text -> "", rdf:li ->
+    rdf:_n), and `cause` is among those used; for a parse error: the request contains a blank label / reserved
+    rdf: name that makes the document unparsable.  Keeps the known findings recognisable when the hand model of
+    the third-party reader drifts (dependency upgrade), without widening them."""
+    I = kv(failure["impl"])
+    g = _graph(failure["request"])
+    if g is None:
+        return False
+    if I.get("parse") == "err":
+        if cause == "bn":
+            return any(x[0] == "b" and not _NCNAME.match(x[1]) for s, p, o in g for x in (s, o))
+        if cause == "rdfres":
+            return any(p[1].startswith(RDF) and p[1][len(RDF):] in _RESERVED - {"li"} for s, p, o in g)
+        return False
+    if I.get("parse") != "ok":
+        return False
+    G = _parsed_graph(failure["impl"])
+    if G is None:
+        return False
+    E = {_norm(t) for t in g}
+    used, images = set(), set()
+    for s, p, o in E - G:
+        ws = o[0] in "lg" and o[1] != "" and set(o[1]) <= _WS
+        li = p[1] == RDF + "li"
+        if not (ws or li):
+            return False
+        o2 = (o[0], "", o[2]) if ws else o
+        cands = [x for x in G if x[0] == s and x[2] == o2 and (_RDF_N.match(x[1][1]) if li else x[1] == p)]
+        if not cands:
+            return False
+        images.update(cands)
+        used.update((["ws"] if ws else []) + (["rdfres"] if li else []))
+    if not (G - E) <= images:
+        return False
+    return cause in used
+
+
 def _roundtrip_failure(failure, cause):
     return (failure.get("field") == "FAIL.roundtrip" and cause in _causes(failure["request"])
-            and _model_predicts(failure))
+            and (_model_predicts(failure) or _explained(failure, cause)))
 
 
 @predicate
